@@ -3,6 +3,7 @@ package engine
 import (
 	"sort"
 	"strings"
+	"sync"
 
 	"github.com/vektah/gqlparser/v2/ast"
 )
@@ -64,6 +65,37 @@ func deprecation(dl ast.DirectiveList) (bool, any) {
 		return true, a.Value.Raw
 	}
 	return true, "No longer supported"
+}
+
+// refStyle holds the schemas whose introspection answers print default values the way the reference
+// implementation does ("[A, B]", "{a: 1, b: 2}") instead of compactly ("[A,B]", "{a:1,b:2}"); both are the same literal.
+var refStyle sync.Map
+
+// UseReferenceStyle makes introspection answers for s print composite default values in the reference style.
+func UseReferenceStyle(s *ast.Schema) { refStyle.Store(s, true) }
+
+// ForgetStyle drops s from the style table.
+func ForgetStyle(s *ast.Schema) { refStyle.Delete(s) }
+
+func printValueRef(v *ast.Value) string {
+	if v == nil {
+		return ""
+	}
+	switch v.Kind {
+	case ast.ListValue:
+		parts := make([]string, len(v.Children))
+		for i, c := range v.Children {
+			parts[i] = printValueRef(c.Value)
+		}
+		return "[" + strings.Join(parts, ", ") + "]"
+	case ast.ObjectValue:
+		parts := make([]string, len(v.Children))
+		for i, c := range v.Children {
+			parts[i] = c.Name + ": " + printValueRef(c.Value)
+		}
+		return "{" + strings.Join(parts, ", ") + "}"
+	}
+	return v.String()
 }
 
 func strOrNil(s string) any {
@@ -252,6 +284,9 @@ func (e *exec) introspect(obj *Obj, objType *ast.Definition, fd *ast.FieldDefini
 		case "defaultValue":
 			if iv.def == nil {
 				return nil
+			}
+			if _, ok := refStyle.Load(e.s); ok {
+				return printValueRef(iv.def)
 			}
 			return iv.def.String()
 		}
